@@ -280,7 +280,7 @@ impl<T: BitRead> PackedRead for T {
         if fragmentation_possible && bit_len >= LENGTH_16K {
             loop {
                 let ext_bit_len = self.read_length_determinant(None, None)?;
-                let ext_byte_len = byte_len - ((bit_len + ext_bit_len) + 7) / 8;
+                let ext_byte_len = ((bit_len + ext_bit_len) + 7) / 8 - byte_len;
                 buffer.extend(core::iter::repeat(0x00).take(ext_byte_len as usize));
                 self.read_bits_with_offset_len(
                     &mut buffer[..],
@@ -289,7 +289,7 @@ impl<T: BitRead> PackedRead for T {
                 )?;
 
                 bit_len += ext_bit_len;
-                byte_len += ext_bit_len;
+                byte_len += ext_byte_len;
 
                 if ext_bit_len < LENGTH_16K {
                     break;
